@@ -294,6 +294,12 @@ func (s *Server) manifestPut(repoStr, arg string) http.HandlerFunc {
 				s.log.Debug("failed to parse image manifest", "repo", repoStr, "arg", arg, "mediaType", mt, "err", err)
 				return
 			}
+			if m.MediaType != "" && m.MediaType != mt {
+				w.WriteHeader(http.StatusBadRequest)
+				_ = types.ErrRespJSON(w, types.ErrInfoManifestInvalid("manifest media type "+m.MediaType+" does not match content type "+mt))
+				s.log.Debug("manifest media type mismatch", "repo", repoStr, "arg", arg, "mediaType", mt, "manifestMediaType", m.MediaType)
+				return
+			}
 			// validate image blobs exist
 			eList := s.manifestVerifyImage(repo, m)
 			if eList != nil {
@@ -322,6 +328,12 @@ func (s *Server) manifestPut(repoStr, arg string) http.HandlerFunc {
 				w.WriteHeader(http.StatusBadRequest)
 				_ = types.ErrRespJSON(w, types.ErrInfoManifestInvalid("manifest could not be parsed"))
 				s.log.Debug("failed to parse image manifest", "repo", repoStr, "arg", arg, "mediaType", mt, "err", err)
+				return
+			}
+			if m.MediaType != "" && m.MediaType != mt {
+				w.WriteHeader(http.StatusBadRequest)
+				_ = types.ErrRespJSON(w, types.ErrInfoManifestInvalid("manifest media type "+m.MediaType+" does not match content type "+mt))
+				s.log.Debug("manifest media type mismatch", "repo", repoStr, "arg", arg, "mediaType", mt, "manifestMediaType", m.MediaType)
 				return
 			}
 			addOpts = append(addOpts, types.IndexWithChildren(m.Manifests))
